@@ -324,7 +324,7 @@ def body(chk: core.Check):
     ]
     chk.outside += ["wrap(): texts whose over-long first line contains tabs or starts "
                     "with blanks (known finding F3)",
-                    "the pandoc branch of rst()", "Metadata.doc comment selection", "strings longer than the bounds"]
+                    "the pandoc branch of rst()", "strings longer than the bounds"]
     rnd = random.Random(chk.seed)
     n, bad = validate(chk, rnd)
     chk.extra["translator_validation"] = {"concrete_cases": n, "disagreements": bad}
@@ -397,8 +397,10 @@ def body(chk: core.Check):
         from checks import _wrapflow as wf
         _w, wsrc2 = wf.load_wrap()
         NW = 6 if quick else 8
-        settings = [(72, 0, 0), (8, 0, 0), (6, 2, 3), (4, 0, 1)] if quick else \
-            [(72, 0, 0), (72, 8, 11), (8, 0, 0), (6, 2, 3), (4, 0, 1), (5, 2, 0), (10, 4, 7)]
+        # (width, indent, offset); (8, 5, 5) and (12, 8, 8): indent > width/4, where "short line" (< 0.75 width) and
+        # "fits after indenting" (<= width - indent) differ
+        settings = [(72, 0, 0), (8, 0, 0), (6, 2, 3), (4, 0, 1), (8, 5, 5)] if quick else \
+            [(72, 0, 0), (72, 8, 11), (8, 0, 0), (6, 2, 3), (4, 0, 1), (5, 2, 0), (10, 4, 7), (8, 5, 5), (12, 8, 8)]
         notab = [c for c in wf.WRAP_ALPHA if c != 9]
         wtasks = []
         for (w, ind, off) in settings:
@@ -447,6 +449,31 @@ def body(chk: core.Check):
                 fired = fired or r[3] is not None
         chk.canary("wrap re-flowing the remainder two columns too wide (in-memory mutant)", fired)
 
+    # ---- (4) which comment reaches the docstring: Metadata.doc ----------------------------------------
+    if chk.only("doc"):
+        from checks import _docflow as df
+        _fn, dsrc = df.load_doc()
+        chk.encoded("gapic/schema/metadata.py: Metadata.doc", dsrc)
+        dl = 3 if quick else 4
+        chk.bound("doc_comments", f"leading / trailing comments <= {dl} chars over 'ab \\n', up to two detached comments <= 2 chars")
+        dtasks = df.tasks(dl)
+        with mp.Pool(chk.jobs) as pool:
+            dres = pool.map(df.doc_task, dtasks, chunksize=1)
+        for lv, checks_, secs, cex, task in dres:
+            key = f"doc:leading={task['ll']},trailing={task['lt']},detached={tuple(task['ld'])}"
+            if cex is None:
+                chk.ok("doc-comment-selection", key, secs, n=max(lv, 1))
+            else:
+                text = df.py_doc_violation(*cex)
+                if text:
+                    chk.violation(f"doc:{cex!r}", text, {"kind": "doc", "leading": cex[0], "trailing": cex[1], "detached": cex[2]})
+                else:
+                    chk.fail_inconclusive(f"Metadata.doc counterexample {cex!r} did not replay")
+        mut = open(df.META).read().replace("return self.documentation.trailing_comments.strip()",
+                                          "return self.documentation.leading_comments.strip()")
+        r = df.doc_task(dict(ll=0, lt=2, ld=(), source=mut))
+        chk.canary("Metadata.doc returning the (empty) leading comment instead of the trailing one (in-memory mutant)", r[3] is not None)
+
     # ---- sensitivity canaries (in-memory mutants of the loaded sources) --------------------------
     src = open(FMT).read().replace('return f"{code.rstrip()}\\n"', 'return f"{code.rstrip(chr(32))}\\n"')
     fwm, _ = bstr.load_function(FMT, "fix_whitespace", source=src)
@@ -466,6 +493,9 @@ def replay(chk, data):
     if data.get("kind") == "wrap":
         from checks import _wrapflow as wf
         return wf.py_wrap_violation(data["input"], data["width"], data["indent"], data["offset"])
+    if data.get("kind") == "doc":
+        from checks import _docflow as df
+        return df.py_doc_violation(data["leading"], data["trailing"], data["detached"])
     if data.get("kind") == "rst":
         return py_rst_violation(data["input"], data["width"], data["indent"], data["nl"])
     return None
